@@ -252,7 +252,27 @@ def run_sound_case(case):
             positions = [{"f": "?", "pos": "cli", "vals": [], "ann": absmodel.T("unresolved", "stub command failed: " + crashed)}]
         if case["flag"] != "--ignore-existing-annotations":
             positions = [p for p in positions if not (p["f"] == "fa" and p["pos"] in ("a", "return"))]
-        rec = {"tid": case["tid"], "ev": "Sound", "k": case["k"], "positions": positions, "tds": td_key_counts(ab),
+        ib_agrees = True
+        if case["rw"] == "NONE" and not case["flag"] and crashed == "NONE" and rc == 0:
+            from monkeytype.db.sqlite import SQLiteStore
+            from monkeytype.stubs import StubIndexBuilder
+            ib = StubIndexBuilder("mtp_target", case["k"])
+            st = SQLiteStore.make_store(db)
+            for th in st.filter("mtp_target"):
+                try:
+                    ib.log(th.to_trace())
+                except Exception:
+                    pass
+            st.conn.close()
+            try:
+                ibstubs = ib.get_stubs()
+                text2 = ibstubs["mtp_target"].render() if "mtp_target" in ibstubs else ""
+            except Exception as e:
+                text2 = "<<StubIndexBuilder raised %s>>" % type(e).__name__
+            ab2, pos2 = stub_positions(text2, own, truth)
+            key = lambda ps: sorted((p["f"], p["pos"], absmodel.canon(p["ann"])) for p in ps)  # noqa: E731
+            ib_agrees = key(pos2) == key(positions) and td_key_counts(ab2) == td_key_counts(ab)
+        rec = {"tid": case["tid"], "ev": "Sound", "k": case["k"], "positions": positions, "tds": td_key_counts(ab), "ib_agrees": ib_agrees,
                "stored": stored_encodings(db), "obs": [], "tdobs": [], "stub": out.getvalue()[:1200],
                "unres_sig": ab.get("unres_sig", []), "unres_td": ab.get("unres_td", []), "dup_td": ab.get("dup_td", False)}
         return rec
@@ -303,7 +323,7 @@ def run_same_case(case):
         ab, positions = stub_positions(text, {"K": M.K}, {})
         obs.append([{"f": q["f"], "pos": q["pos"], "ann": q["ann"]} for q in positions])
         tdobs.append([{"name": t["name"], "keys": t["keys"]} for t in td_key_counts(ab)])
-    return {"tid": case["tid"], "ev": "Same", "k": case["k"], "positions": [], "tds": [], "stored": [], "obs": obs, "tdobs": tdobs,
+    return {"tid": case["tid"], "ev": "Same", "k": case["k"], "positions": [], "tds": [], "stored": [], "obs": obs, "tdobs": tdobs, "ib_agrees": True,
             "stub": texts[0][:800], "stub_other": next((t for t in texts if t != texts[0]), "")[:800]}
 
 
@@ -496,6 +516,11 @@ def run_pipeline(pid, tier, seed, run, replay_case=None):
     for v in verdicts:
         rec, case = by_tid[v["tid"]], case_by[v["tid"]]
         for clause in v.get("viol", []):
+            if clause.startswith("X:"):
+                run.notes.append(clause)
+                if len(run.notes) <= 5:
+                    print("EXTENDED-SPEC-MISMATCH spec=MTPipelineTrace clause=%s (beyond the listed properties; not an alarm)" % clause)
+                continue
             if clause not in mine:
                 continue
             if pid == "C01":
@@ -533,6 +558,8 @@ def main(pid, tier, seed, replay=None):
         "mc": None if mc is None else {"spec": "MTPipelineMC: EndToEndSound for the composition infer -> store (set) -> shrink -> rewriter chain",
                                        "distinct_states": mc.distinct, "states_generated": mc.generated},
         "trace_validation": {"spec": "MTPipelineTrace", "tlc_states": states, "wall_s": round(wall, 1)},
+        "extended_spec": {"clause": "IndexBuilderAgrees (StubIndexBuilder fed the decoded traces renders the same stub as store -> CLI, "
+                                    "no rewriter)", "mismatches": len(run.notes)},
         "exhaustive": False,
     }
     return run.finish(cov)
